@@ -392,6 +392,27 @@ func metaScenario(k int) {
 	}
 	truth := l.Truth()
 	info := l.InfoBytes(truth)
+	if k%4 == 1 {
+		// metadata sizes on the 16 KiB block boundaries: pad the name until the size is exact
+		target := []int{16384, 32768, 16383, 16385, 49152, 32767}[r.Intn(6)]
+		for len(info) < target-400 {
+			i := len(l.Files)
+			l.Files = append(l.Files, gen.FileSpec{Path: []string{fmt.Sprintf("dir%d", i%7), fmt.Sprintf("pad-%05d.bin", i)}, Length: 1})
+			truth = l.Truth()
+			info = l.InfoBytes(truth)
+		}
+		for try := 0; try < 8 && len(info) != target; try++ {
+			d := target - len(info)
+			if d > 0 {
+				l.Name += strings.Repeat("n", d)
+			} else if -d < len(l.Name)-4 {
+				l.Name = l.Name[:len(l.Name)+d]
+			} else {
+				break
+			}
+			info = l.InfoBytes(truth)
+		}
+	}
 	ih := gen.InfoHash(info)
 	other := append([]byte(nil), info...) // same length, different content, valid bencode (a name byte changed)
 	if i := strings.Index(string(other), "c13_"); i >= 0 {
